@@ -34,6 +34,9 @@ CHECKS.update({
 CHECKS.update({
 "C14":("fault_enumeration","Two real nodes over simulated TCP; observers hold links/monitors on a remote pid, name, alias, event and on the node, with a call or important send in flight; faults enumerated over kind (all links cut, one link cut, graceful stop, crash, crash+restart after 0.2-5 s, partition) x instant x target-terminated-before; exactly-one notification with 'no connection' or the remote reason, bounded completion of the in-flight request, connection survives a single link cut, identifiers of the previous incarnation refused and never delivered."),
 })
+CHECKS.update({
+"C18":("exploration","One event (buffer 0-4, Notify on/off) with a producer, an optional second token holder and an intruder publishing concurrently while 1-4 consumers on the same and on a second node (simulated TCP) subscribe by link/monitor, unsubscribe and re-subscribe, and the producer unregisters or terminates; interval-based oracle for exactly-once in-order delivery after subscription, buffer replay, token enforcement, end notifications and start/stop notifications."),
+})
 NA={}
 def chk(pid):
     level,text=CHECKS[pid]
